@@ -103,7 +103,9 @@ func (r *i36Run) fetchUnit(ui int, b *i36Base, newSrv *i36Srv, prior i36Prior, s
 				c.Must(iCopyDir(tmpl, od), "copy client template")
 				ores := iGit(r.home, od, i36GitConf, append(i36GitFetchArgs(tname, depth, prune), "origin")...)
 				if ores.TimedOut {
-					fw.Abort("git->git oracle fetch timed out: %s", req)
+					c.Incomplete("watchdog (60 s) expired on the git->git oracle run of " + req.String())
+					os.RemoveAll(od)
+					continue
 				}
 				if ores.Code != 0 {
 					r.mu.Lock()
